@@ -61,12 +61,13 @@ def handle : List String → Option String
       (s, acc.2 ++ [s!"{tableStr s.starts}|{tableStr s.stops}|{matrixStr s n}"])) ({}, [])
     pure (if outs.isEmpty then "." else ";".intercalate outs)
   | ["exec", dispatch, diskPre, cancelPre, rc, deferred, unav, unfresh, completion, outputs, diskPost, cancelPost, hash,
-      interrupted, keepGoing] => do
+      interrupted, keepGoing, notRec] => do
     let sc : Exec.Scenario :=
       { dispatchInputs := ← parseHashes dispatch, diskPre := ← parseHashes diskPre, cancelledPre := cancelPre = "1",
         rc := ← rc.toNat?, deferCalled := deferred = "1", amendUnavailable := ← unhexList unav, amendUnfresh := ← unhexList unfresh,
         completionInputs := ← parseHashes completion, outputs := ← unhexList outputs,
-        diskPost := ← parseHashes diskPost, cancelledPost := cancelPost = "1", stepHash := ← hash.toNat? }
+        diskPost := ← parseHashes diskPost, cancelledPost := cancelPost = "1", stepHash := ← hash.toNat?,
+        notRecordable := ← unhexList notRec }
     let c := Exec.executeJob sc
     let oc := match c.outCause with | some true => "S" | some false => "F" | none => "-"
     pure s!"{boolStr c.ranCommand} {optStr c.hash} {boolStr c.wantsDefer} {hexList c.failedInputs} {oc} {boolStr c.drainUnexpected} {Exec.tag c (interrupted = "1")} {boolStr (Exec.drains c (interrupted = "1") (keepGoing = "1"))}"
